@@ -738,7 +738,7 @@ class URL:
                 _add(quote_userinfo_part(self.password))
             _add('@')
         if self.host:
-            if self.family == socket.AF_INET6:
+            if self.family == socket.AF_INET6 or ':' in self.host:
                 _add('[')
                 _add(self.host)
                 _add(']')
